@@ -530,6 +530,11 @@ fn run_random(ctx: &mut Ctx, rng: &mut Rng, _index: u64) {
 }
 
 fn run_large(ctx: &mut Ctx, rng: &mut Rng, _index: u64) {
+    if crate::framework::small_mode() {
+        // too slow under an interpreter: covered by the native run
+        ctx.gray();
+        return;
+    }
     // chunks larger than the 64 KiB internal buffer, fault inside / at the edges of the big chunk
     let first = *rng.pick(&[65_536usize, 65_537, 70_000, 131_073, 150_000]);
     let mut sizes = vec![5, first];
